@@ -327,20 +327,86 @@ fn verif_harness_ext(toks: &[&str]) -> String {
             let out = rxrun::run(&mut rx, audio_run, &sched);
             let consumed = rx.input_sample_counter();
             let flush_n: usize = g("flush", "0").parse().unwrap();
-            let flushed = if flush_n > 0 { rxrun::flush_all(&mut rx, flush_n) } else { vec![] };
+            // flush() calls: each call's tick trace is recorded so that the model can replay the call
+            let mut flushed: Vec<String> = Vec::new();
+            let mut flush_items: Vec<String> = Vec::new();
+            for _ in 0..flush_n {
+                sameold::verif::trace_enable(true);
+                let _ = sameold::verif::take_trace();
+                let before = rx.input_sample_counter();
+                let m = rx.flush();
+                let tr = sameold::verif::take_trace();
+                sameold::verif::trace_enable(false);
+                flush_items.push(rxrun::trace_items(&tr, rx.input_sample_counter(), before));
+                match m {
+                    Some(m) => flushed.push(rxrun::msg_short(&m)),
+                    None => { flushed.push("none".to_owned()); break; }
+                }
+            }
             let items = rxrun::trace_items(&out.trace, audio_run.len() as u64, start);
             let evs = if out.events.is_empty() { "-".to_owned() } else { out.events.join(";") };
             let dbg = format!("{:?}", rx);
             let finite = !(dbg.contains("NaN") || dbg.contains("inf"));
             format!(
-                "rx {} {} {} {} {}|{}|samples={} counter={} checks={} flushed={} finite={}",
+                "rx {} {} {} {} {}|{}|samples={} counter={} checks={} flushed={} finite={}|{}",
                 cfg.rate, cfg.prefix_err, cfg.max_invalid, cfg.preamble_err, items, evs,
                 audio_run.len(), consumed,
                 if out.consumed_checks.is_empty() { "-".to_owned() } else {
                     out.consumed_checks.iter().map(|(a, b)| format!("{}:{}", a, b)).collect::<Vec<_>>().join(",") },
-                if flushed.is_empty() { "-".to_owned() } else { flushed.join(";") },
-                finite as u8
+                if flushed.is_empty() { "-".to_owned() } else { flushed.join("/") },
+                finite as u8,
+                if flush_items.is_empty() { "-".to_owned() } else { flush_items.join(" ") }
             )
+        }
+        // synthfile <rxaudio params> out=<path> [odd=1]: write the synthesized audio as raw native-endian i16 (what samedec
+        // reads) and decode the SAME quantized samples with the library configured as samedec configures it: one pass of
+        // iter_messages, then flush() until None.  Reports each message's text and the sample counter when it was returned.
+        ["synthfile", rest @ ..] => {
+            use std::io::Write as _;
+            let g = |k: &str, d: &str| kv(rest, k).unwrap_or(d).to_owned();
+            let rate: u32 = g("rate", "22050").parse().unwrap();
+            let p = Params {
+                rate,
+                amp: g("amp", "10000").parse().unwrap(),
+                dc: g("dc", "0").parse().unwrap(),
+                phase: g("phase", "0").parse().unwrap(),
+                frac: g("frac", "0").parse().unwrap(),
+                baud_err: g("baud", "0").parse().unwrap(),
+                snr_db: kv(rest, "snr").map(|s| s.parse().unwrap()),
+                seed: g("seed", "1").parse().unwrap(),
+            };
+            let audio = synth::synthesize(&p, &g("script", ""));
+            let q: Vec<i16> = audio.iter().map(|x| x.round().clamp(-32768.0, 32767.0) as i16).collect();
+            let mut bytes: Vec<u8> = Vec::with_capacity(q.len() * 2 + 1);
+            for s in &q { bytes.extend_from_slice(&s.to_ne_bytes()); }
+            if g("odd", "0") == "1" { bytes.push(0x55); }
+            let mut f = std::fs::File::create(g("out", "/dev/null")).unwrap();
+            f.write_all(&bytes).unwrap();
+            drop(f);
+            let mut rx = sameold::SameReceiverBuilder::new(rate)
+                .with_agc_gain_limits(1.0f32 / (i16::MAX as f32), 1.0 / 200.0)
+                .build();
+            let mut msgs = Vec::new();
+            {
+                let mut src = q.iter().map(|s| *s as f32);
+                loop {
+                    let m = { let mut it = rx.iter_messages(src.by_ref()); it.next() };
+                    match m {
+                        Some(m) => msgs.push(format!("{}@{}", hex_of_bytes(format!("{}", m).as_bytes()), rx.input_sample_counter())),
+                        None => break,
+                    }
+                }
+            }
+            let mut flushed = Vec::new();
+            for _ in 0..8 {
+                match rx.flush() {
+                    Some(m) => flushed.push(hex_of_bytes(format!("{}", m).as_bytes())),
+                    None => break,
+                }
+            }
+            format!("ok n={} msgs={} flushed={}", q.len(),
+                if msgs.is_empty() { "-".to_owned() } else { msgs.join(";") },
+                if flushed.is_empty() { "-".to_owned() } else { flushed.join(";") })
         }
         // cfgcalls <rate> <call;call;...>: apply builder calls in the given order, print the builder's getters as
         // order-preserving integer keys of the f32 values, build, and print the constructed window lengths
